@@ -1,7 +1,7 @@
 """C03 — support mappings (structural clauses)."""
 from . import scopes
 from ..core.report import DOMAIN_D
-from ..rules import generic2, colliders, frame, signalign, eager, affine, unpack, purity, onsegment, misc2
+from ..rules import generic2, colliders, frame, signalign, eager, affine, unpack, purity, onsegment, misc2, loops
 from .common import e1, e2
 
 MODS = {"distance3d.geometry", "distance3d.colliders", "distance3d.mesh", "distance3d.utils"}
@@ -41,3 +41,5 @@ def run(idx, rep, tier):
     generic2.r_residualzero(idx, rep, [m.name for m in idx.lib_modules()], floor=0)      # expected count zero today; its mutant in the self-test is the positive example
     misc2.r_shortcuts(idx, rep)
     unpack.r_unpack(idx, rep, floor=1)
+    loops.r_loop(idx, rep, ["distance3d.mesh"], floor=1)      # a step cap on the hill climb returns a vertex that is not extreme on fine meshes
+    generic2.r_axisscale(idx, rep, [m.name for m in idx.lib_modules()], floor=0)
